@@ -180,6 +180,15 @@ class Const(Shape):
         self.value = value
 
 
+class Subset(Shape):
+    """A python set that is an arbitrary subset of the given constant elements."""
+    kind = "subset"
+
+    def __init__(self, elems, frozen=False):
+        self.elems = list(elems)
+        self.frozen = frozen
+
+
 class OpaqueT(Shape):
     """A value the code under contract never inspects (passed through)."""
     kind = "opaque"
